@@ -929,10 +929,12 @@ func c16NormaliseKeys(res *c16Result) {
 		switch {
 		case strings.Contains(f.Key, ":colliding-ids"):
 			nk = "colliding-ids"
-		case strings.Contains(f.Key, ":control-chars-in-title-change"), strings.Contains(f.Key, "title-has-unsafe-characters"):
-			nk = "title-change-not-sanitised"
+		case strings.Contains(f.Key, "title-has-unsafe-characters"):
+			nk = "title-change-not-sanitised" // the importer's own error message
 		case strings.Contains(f.Key, ":diff-markers-in-title"):
 			nk = "title-change-note-misparsed"
+		case strings.Contains(f.Key, ":control-chars-in-title-change"):
+			nk = "title-change-not-sanitised"
 		}
 		if nk != "" {
 			f.What = "[" + f.Key + "] " + f.What
